@@ -192,7 +192,10 @@ def finalize(check, violations, viol_count, coverage, t0, log=print):
         lines.append(f"VIOLATION property={v['property']} replay={path}")
         log(f"    signature: {v['signature']}  (x{viol_count[v['signature']]})")
         log(f"    oracle: {v['oracle']}  detail: {v.get('detail', '')}")
-        log(f"    history: {[W.pretty_op(o) for o in v['history']]}")
+        if v.get("history") is not None:
+            log(f"    history: {[W.pretty_op(o) for o in v['history']]}")
+        if v.get("input") is not None:
+            log(f"    input: {common.short(v['input'])}")
         if v.get("probe") is not None:
             log(f"    probe: {common.short(v['probe'])}")
         log(f"    observed: {common.short(v['observed'])}")
